@@ -147,14 +147,26 @@ class DeRun:
             if isinstance(dst, tuple) and dst and dst[0] == 'enc' and isinstance(src, Buf):
                 pth.events.append(('copy', dst[1], dst[2], src.n, list(src.parts), where))
                 cur = fr.store.get(dv.root)
-                fr.store[dv.root] = fr._update(cur, list(dv.proj), ('enc', dst[1], dst[2], list(src.parts)))
+                fr.store[dv.root] = fr._update(cur, list(dv.proj), ('enc', dst[1], dst[2], list(src.parts), src.first))
             else:
                 pth.events.append(('copy-unrecognised', repr(dst), repr(src), where))
             return True
         if name in ('into_affine', 'into_affine_unchecked') and c.get('trait') == 'EncodedPoint':
             v = fr.deref_operand(args[0])
             pth.events.append(('decode', name, c.get('self_ty'), v, where))
-            fr.storev(dest, Opt(None, ('decoded', c.get('self_ty'), name), ('decode', c.get('self_ty'), name, where)))
+            tag = None
+            # decoder contract (decided by C04's decision tables): a form flag that contradicts the
+            # encoding type is always rejected
+            if isinstance(v, tuple) and len(v) >= 5 and isinstance(v[4], KBits) and (v[4].mask & 0x80):
+                b7 = (v[4].val >> 7) & 1
+                is_comp = c.get('self_ty', '').endswith('Compressed') and not c.get('self_ty', '').endswith('Uncompressed')
+                if b7 != (1 if is_comp else 0):
+                    tag = 'err'
+            o_ = Opt(None, ('decoded', c.get('self_ty'), name), ('decode', c.get('self_ty'), name, where))
+            if tag == 'err':
+                fr.storev(dest, Opt('some', ('decode-error', c.get('self_ty')), ('decode', c.get('self_ty'), name, where)))
+            else:
+                fr.storev(dest, o_)
             return True
         if name == 'into_projective' and c.get('trait') == 'CurveAffine':
             fr.storev(dest, ('proj', fr.deref_operand(args[0])))
@@ -228,8 +240,12 @@ def rule_point_deserializers(fx, rep):
                         if oc[0] != 'Err':
                             bad.append('I/O error not propagated')
                         continue
-                    if oc[0] != 'Err' or len(reads) != 1 or dec_labs:
-                        bad.append('flag mismatch gives %s after %d reads%s; expected an error before any further read' % (oc[0], len(reads), ' and a decode' if dec_labs else ''))
+                    if try_labs and try_labs[-1][1]:
+                        if oc[0] != 'Err':
+                            bad.append('I/O error not propagated')
+                        continue
+                    if oc[0] != 'Err':
+                        bad.append('a compression flag that contradicts the data yields %s (after %d reads)' % (oc[0], len(reads)))
                     continue
                 # flag agrees
                 want_reads = [sc] if comp else [sc, su - sc]
@@ -265,7 +281,7 @@ def rule_point_deserializers(fx, rep):
             if b7 == comp and oks != 1:
                 bad.append('%d success paths' % oks)
             rep.check(not bad, 'TABLE', inst,
-                      ('mismatch -> error before any further read' if b7 != comp else
+                      ('mismatch -> error on every path' if b7 != comp else
                        ('read %d, checked %s decode' % (sc, 'compressed') if comp else 'read %d + %d, checked uncompressed decode' % (sc, su - sc))),
                       '; '.join(sorted(set(bad))[:4]), where, construct=path)
     rep.floor('TABLE', 'point-deserializers', n, 4)
